@@ -32,8 +32,8 @@ func genAssocSlices(o *out, all []funcInfo) {
 			continue
 		}
 		fn := fi.name
-		appended := map[string]bool{}
-		var order []string
+		appended := map[*ast.Object]bool{}
+		var order []*ast.Object
 		isAppend := func(e ast.Expr) (string, bool) {
 			c, ok := e.(*ast.CallExpr)
 			if !ok || len(c.Args) == 0 {
@@ -68,10 +68,10 @@ func genAssocSlices(o *out, all []funcInfo) {
 			case *ast.AssignStmt:
 				if len(x.Lhs) == 1 && len(x.Rhs) == 1 {
 					if base, ok := isAppend(x.Rhs[0]); ok && base == src(x.Lhs[0]) {
-						if _, isIdent := x.Lhs[0].(*ast.Ident); isIdent && strings.HasPrefix(src(x.Rhs[0].(*ast.CallExpr).Fun), "reflect.") {
-							if !appended[base] {
-								appended[base] = true
-								order = append(order, base)
+						if id, isIdent := x.Lhs[0].(*ast.Ident); isIdent && id.Obj != nil && strings.HasPrefix(src(x.Rhs[0].(*ast.CallExpr).Fun), "reflect.") {
+							if !appended[id.Obj] {
+								appended[id.Obj] = true
+								order = append(order, id.Obj)
 							}
 							bases = append(bases, fmt.Sprintf("(%s, %s)", lstr(fn), lstr(base)))
 						}
@@ -87,17 +87,17 @@ func genAssocSlices(o *out, all []funcInfo) {
 					return true
 				}
 				for i, l := range as.Lhs {
-					if src(l) != v {
+					if id, ok := l.(*ast.Ident); !ok || id.Obj != v { // the same VARIABLE (go/ast object resolution), not only the same name
 						continue
 					}
-					if base, ok := isAppend(as.Rhs[i]); ok && base == v {
+					if base, ok := isAppend(as.Rhs[i]); ok && base == v.Name {
 						continue
 					}
 					callee := ""
 					if c, ok := as.Rhs[i].(*ast.CallExpr); ok {
 						callee = src(c.Fun)
 					}
-					origins = append(origins, fmt.Sprintf("(%s, %s, %s)", lstr(fn), lstr(v), lstr(callee)))
+					origins = append(origins, fmt.Sprintf("(%s, %s, %s)", lstr(fn), lstr(v.Name), lstr(callee)))
 				}
 				return true
 			})
